@@ -88,6 +88,27 @@ struct C02Fin {
 				VP_CHECK(it - b == k, "elems/position", which << ": it-begin=" << (it - b) << " after " << k << " increments");
 			}
 			VP_CHECK(it == e, "elems/forward_end", which << ": n increments from begin do not reach end");
+			// an end *reached by increments* is the end: stepping and jumping back from it designates the last elements (the position an iterator holds must not
+			// depend on how it got there)
+			{ It a = it; --a; VP_CHECK(a - b == n - 1 && std::addressof(*a) - root == want[static_cast<std::size_t>(n - 1)], "elems/stepped_end_decrement", which << ": -- of an end reached by increments designates root position " << (std::addressof(*a) - root) << " expected " << want[static_cast<std::size_t>(n - 1)]); }
+			for(long k : {1L, 2L, n}) {
+				if(k > n) { continue; }
+				{ It a = it; a -= k; VP_CHECK(a == b + (n - k) && std::addressof(*a) - root == want[static_cast<std::size_t>(n - k)], "elems/stepped_end_minus_assign", which << ": (end reached by increments) -= " << k << " designates root position " << (std::addressof(*a) - root) << " expected " << want[static_cast<std::size_t>(n - k)]); }
+				{ It a = it - k; VP_CHECK(std::addressof(*a) - root == want[static_cast<std::size_t>(n - k)], "elems/stepped_end_minus", which << ": (end reached by increments) - " << k << " designates root position " << (std::addressof(*a) - root) << " expected " << want[static_cast<std::size_t>(n - k)]); }
+				VP_CHECK(std::addressof(it[-k]) - root == want[static_cast<std::size_t>(n - k)], "elems/stepped_end_subscript", which << ": (end reached by increments)[-" << k << "] designates root position " << (std::addressof(it[-k]) - root) << " expected " << want[static_cast<std::size_t>(n - k)]);
+			}
+		}
+		{ // positions reached by single steps, then jumps from there (forwards from the middle, backwards from the middle)
+			long const mid = n/2;
+			It it = b; for(long k = 0; k < mid; ++k) { ++it; }
+			for(long q : {0L, mid, n - 1}) {
+				VP_CHECK(std::addressof(it[q - mid]) - root == want[static_cast<std::size_t>(q)], "elems/stepped_subscript", which << ": (begin stepped " << mid << " times)[" << (q - mid) << "] designates root position " << (std::addressof(it[q - mid]) - root) << " expected " << want[static_cast<std::size_t>(q)]);
+				{ It a = it; a += (q - mid); VP_CHECK(a == b + q && std::addressof(*a) - root == want[static_cast<std::size_t>(q)], "elems/stepped_plus_assign", which << ": (begin stepped " << mid << " times) += " << (q - mid)); }
+				{ It a = it; a -= (mid - q); VP_CHECK(a == b + q && std::addressof(*a) - root == want[static_cast<std::size_t>(q)], "elems/stepped_minus_assign", which << ": (begin stepped " << mid << " times) -= " << (mid - q)); }
+			}
+			It jt = e; for(long k = n; k > mid; --k) { --jt; }
+			VP_CHECK(jt == it, "elems/stepped_meet", which << ": stepping forwards from begin and backwards from end do not meet");
+			for(long q : {0L, n - 1}) { It a = jt; a += (q - mid); VP_CHECK(std::addressof(*a) - root == want[static_cast<std::size_t>(q)], "elems/stepped_back_plus_assign", which << ": (end stepped back to " << mid << ") += " << (q - mid)); }
 		}
 		{ // backward walk from end
 			It it = e;
@@ -96,6 +117,12 @@ struct C02Fin {
 				VP_CHECK(std::addressof(*it) - root == want[static_cast<std::size_t>(k)], "elems/backward", which << ": -- walk at k=" << k << " designates root position " << (std::addressof(*it) - root) << " expected " << want[static_cast<std::size_t>(k)]);
 			}
 			VP_CHECK(it == b, "elems/backward_begin", which << ": n decrements from end do not reach begin");
+			for(long k : {1L, n - 1}) {  // a begin reached by decrements is the begin
+				if(k <= 0 || k >= n) { continue; }
+				{ It a = it; a += k; VP_CHECK(a == b + k && std::addressof(*a) - root == want[static_cast<std::size_t>(k)], "elems/stepped_begin_plus_assign", which << ": (begin reached by decrements) += " << k); }
+				VP_CHECK(std::addressof(it[k]) - root == want[static_cast<std::size_t>(k)], "elems/stepped_begin_subscript", which << ": (begin reached by decrements)[" << k << "]");
+			}
+			{ It a = it; a += n; VP_CHECK(a == e, "elems/stepped_begin_to_end", which << ": (begin reached by decrements) += n is not end()"); }
 		}
 		VP_CHECK(std::addressof(es.front()) - root == want.front(), "elems/front", which << ": front()");
 		VP_CHECK(std::addressof(es.back()) - root == want.back(), "elems/back", which << ": back()");
